@@ -37,7 +37,7 @@ func runC07(w *core.World, r *core.Report) {
 	r.Rule("R10", "String/Error/Format methods of library types change nothing (they run wherever a value is logged)")
 	r.Rule("R9", "the pre-VM hook, which runs at every engine initialisation, does not move the state (Down/Up clear the page index)")
 	r.Rule("R11", "Finish saves whenever the engine was initialised and has a persister (C20 R6): no request's progress is left unsaved")
-	r.Rule("R10", "the filesystem store hands back the snapshot bytes as read from the file (no trimming or rewriting on the way)")
+	r.Rule("R12", "the filesystem store hands back the snapshot bytes as read from the file (no trimming or rewriting on the way)")
 	r.Rule("R8", "the configured default language is applied before the stored session is loaded, never after")
 	r.Rule("R7", "a refused State.Restart changes nothing: no store of Restart can be followed by one of its error returns")
 	r.Rule("R6", "per-request and long-lived engines agree on what the unpersisted engine sees: language injected after the state is loaded (C18 R2); the output-pending mark DIRTY is raised only by Vm.Run")
@@ -247,7 +247,7 @@ func runC07(w *core.World, r *core.Report) {
 	checkConfigLanguageBeforeLoad(w, r, "R8")
 	checkHookKeepsPosition(w, r, "R9")
 	checkFinishAlwaysSaves(w, r, "R11", "a request that changed the pending code or the flags but made no move is not stored; the next per-request engine reloads the older snapshot and replays the same segment while an uninterrupted engine has advanced: ")
-	checkFsGetReturnsFileBytes(w, r, "R10", "the snapshot a session resumes from is not the bytes that were saved - a trailing line break trimmed, a cached copy - so the decode fails or yields another state than the uninterrupted session has: ")
+	checkFsGetReturnsFileBytes(w, r, "R12", "the snapshot a session resumes from is not the bytes that were saved - a trailing line break trimmed, a cached copy - so the decode fails or yields another state than the uninterrupted session has: ")
 	checkDiagnosticsArePure(w, r, "R10")
 }
 
